@@ -166,7 +166,11 @@ state_exec!(BorrowedState, futures_intrusive::channel::StateReceiveFuture<'stati
 state_exec!(SharedState, futures_intrusive::channel::shared::StateReceiveFuture<M, Val>,
     { senders: Vec<GenericStateSender<M, Val>>, receivers: Vec<GenericStateReceiver<M, Val>>, observer: Option<VerifStateObserver<M, Val>> },
     |k| {
-        let (s, r) = generic_state_broadcast_channel::<M, Val>();
+        let (s, r): (GenericStateSender<M, Val>, GenericStateReceiver<M, Val>) =
+            match cast(futures_intrusive::channel::shared::state_broadcast_channel::<Val>()) {
+                Ok(p) => p,
+                Err(p) => { drop(p); generic_state_broadcast_channel::<M, Val>() }
+            };
         let observer = Some(s.verif_observer());
         let mut senders = Vec::with_capacity(16); senders.push(s);
         let mut receivers = Vec::with_capacity(16); receivers.push(r);
